@@ -48,18 +48,34 @@ def gen_traj(rng, d, N, T, L, kind):
     return np.array(frames)            # unwrapped (T,N,d)
 
 
+ROW_ORDER_COUNTS = {}
+
+
 def write_nl(path, lists_per_frame):
+    """neighbour file in the library's format.  Rows are identified by their id column: in half of the files the rows of a frame come in
+    id order, otherwise reversed or shuffled (chosen deterministically from the content; the library's own sample list is unordered)."""
+    h = sum(len(l) for lists in lists_per_frame for l in lists) + 7 * len(lists_per_frame)
+    mode = h % 4
     with open(path, "w") as f:
-        for lists in lists_per_frame:
+        for t, lists in enumerate(lists_per_frame):
             f.write("id     cn     neighborlist\n")
-            for i, l in enumerate(lists):
+            order = list(range(len(lists)))
+            if mode == 2:
+                order.reverse()
+            elif mode == 3:
+                order = [int(v) for v in np.random.default_rng([h, t]).permutation(len(lists))]
+            for i in order:
+                l = lists[i]
                 f.write(" ".join([str(i + 1), str(len(l))] + [str(j + 1) for j in l]) + "\n")
+    key = {0: "rows_in_id_order", 1: "rows_in_id_order", 2: "rows_reversed", 3: "rows_shuffled"}[mode]
+    ROW_ORDER_COUNTS[key] = ROW_ORDER_COUNTS.get(key, 0) + 1
 
 
 def random_lists(rng, N):
     out = []
+    same = int(rng.integers(1, min(N - 1, 6) + 1)) if rng.random() < 0.3 else None      # every particle with the same coordination number
     for i in range(N):
-        k = int(rng.integers(1, min(N - 1, 6) + 1))
+        k = same or int(rng.integers(1, min(N - 1, 6) + 1))
         others = [j for j in range(N) if j != i]
         out.append([int(v) for v in rng.choice(others, size=k, replace=False)])
     return out
